@@ -33,7 +33,10 @@ let parse_swb (t : toks) : M.swb_px =
 
 (* the harness observes a Pyth feed through get_price_of_type (exponent 0): I80F48 bits of the i64 *)
 let pyth_s (r : M.pyth_px M.res) : string =
-  res_s (fun f -> zs (M.of_int f.M.py_price) ^ " " ^ zs (M.of_int f.M.py_ema)) r
+  res_s (fun f ->
+    let feed = Price.FPyth (f.M.py_price, f.M.py_conf, M.Z0, f.M.py_ema, f.M.py_ema_conf) in
+    let low ty = res_s zs (Price.px_price_of_type feed ty (Some Price.PLow) M.Z0) in
+    zs (M.of_int f.M.py_price) ^ " " ^ zs (M.of_int f.M.py_ema) ^ " " ^ low Price.RealTime ^ " " ^ low Price.TimeWeighted) r
 let swb_s (r : M.swb_px M.res) : string =
   res_s (fun f -> zs f.M.sw_value ^ " " ^ zs f.M.sw_std_dev) r
 
